@@ -87,3 +87,19 @@ entry:
 	store i64 7, i64* %c
 	ret i32 %v
 }
+
+define i32* @gep_with_vector_indices(i32* %p, <4 x i32*> %vp, { i32, [4 x i8] }* %s, <4 x i64> %vi) {
+entry:
+	%g1 = getelementptr i32, i32* %p, <4 x i64> <i64 1, i64 1, i64 1, i64 1>
+	%e1 = extractelement <4 x i32*> %g1, i32 0
+	%g2 = getelementptr i32, i32* %p, <4 x i64> <i64 0, i64 1, i64 2, i64 3>
+	%e2 = extractelement <4 x i32*> %g2, i32 3
+	%g3 = getelementptr i32, <4 x i32*> %vp, i64 2
+	%e3 = extractelement <4 x i32*> %g3, i32 1
+	%g4 = getelementptr { i32, [4 x i8] }, { i32, [4 x i8] }* %s, <4 x i64> %vi, i32 1, <4 x i32> <i32 2, i32 2, i32 2, i32 2>
+	%e4 = extractelement <4 x i8*> %g4, i32 2
+	%g5 = getelementptr i32, i32* %p
+	%c = icmp eq i32* %e1, %e2
+	%r = select i1 %c, i32* %e3, i32* %g5
+	ret i32* %r
+}
